@@ -38,8 +38,8 @@ More == l <= Len(Traces[tid])
 Step == l' = l + 1 /\ UNCHANGED tid
 
 MechOff == /\ variant = "own" /\ scn = <<>> /\ hs = <<>> /\ ready = <<>> /\ timers = {} /\ hl = <<>> /\ fut = <<>>
-           /\ lp = [pc |-> "off", h |-> 0, todo |-> 0] /\ q = <<>> /\ ex = <<>>
-           /\ fwake = <<>> /\ go = FALSE /\ idled = 0 /\ woken = FALSE /\ own = {} /\ busy = 0
+           /\ lp = [pc |-> "off", h |-> 0, todo |-> 0, stop |-> FALSE] /\ q = <<>> /\ ex = <<>>
+           /\ fwake = <<>> /\ go = FALSE /\ idled = 0 /\ woken = FALSE /\ own = {} /\ busy = 0 /\ pause = 0
 
 TInit == /\ tid \in 1..NTraces /\ l = 1 /\ MonInit /\ MechOff
 
